@@ -102,6 +102,7 @@ class Debugger:
                 elif real_op.name == "RETURN":
                     self.calls -= 1
 
+                self.vm.location = real_op.loc
                 real_op.execute(self.vm)
 
     def reset(self) -> None:
